@@ -57,6 +57,9 @@ structure Variant where
   fixResume : Bool := false
   /-- F23 repaired: defrag with no layer tensors does not divide by zero -/
   fixDiv : Bool := false
+  /-- F-SWA-capacity (C07) repaired: the sliding-window cache is sized `maxSeq * (window + maxBatch)`
+      instead of `maxSeq * window + maxBatch` -/
+  perSeqBatch : Bool := false
 deriving Repr
 
 structure Cache where
@@ -84,7 +87,9 @@ def init (v : Variant) (window : Option Int) (maxSeq capacity maxBatch cachePad 
   let batchPad := if batchPad = 0 then 1 else batchPad
   let size := match window with
     | none => maxSeq * capacity
-    | some w => if (capacity : Int) < w then maxSeq * capacity else maxSeq * w.toNat + maxBatch
+    | some w =>
+      if (capacity : Int) < w then maxSeq * capacity
+      else if v.perSeqBatch then maxSeq * (w.toNat + maxBatch) else maxSeq * w.toNat + maxBatch
   let n := roundUp size cachePad
   { v, window, cachePad, batchPad, hasShift,
     cells := List.replicate n Cell.empty, rows := List.replicate n default,
